@@ -247,6 +247,7 @@ type HandlerResponse struct {
 	UsedIn []ResponseUsedIn
 
 	IsBody       bool
+	IsBodySlice  bool // the body is an array defined in place (a plain Go slice)
 	IsBodyReader bool
 	GoTypeFn     GoTypeRenderFunc
 	Body         *SchemaComponent
@@ -302,6 +303,7 @@ func NewHandlerResponse(r *Response, name OperationName, status string, componen
 			switch contentType := contentJSON.Type.Type.(type) {
 			case SliceType:
 				out.GoTypeFn = contentType.RenderGoType
+				out.IsBodySlice = !contentJSON.Type.IsNullable()
 			default:
 				bodyStructName := out.Name + "Body"
 				out.GoTypeFn = StringRender(bodyStructName).Render
